@@ -298,7 +298,7 @@ def applyPolicy (p : Policy) (attrs : Attrs) (nh : Option Nh) (origNh : Option N
 /-! ## export.rs -/
 
 /-- `is_ibgp_learned` -/
-def isIbgpLearned (s : Source) : Bool := !s.isLocal && s.remoteAsn = s.localAsn
+def isIbgpLearned (s : Source) : Bool := !s.isLocal && s.kind != .kernel && s.remoteAsn = s.localAsn
 
 /-- `rs_isolation_suppress` -/
 def rsIsolationSuppress (s : Source) (dest : Role) : Bool :=
@@ -534,6 +534,37 @@ structure ExportCase where
   path : Path
   deriving DecidableEq, Repr, Inhabited
 
+/-- second observation of `exportTwice` -/
+inductive Obs2 where
+  | nothing
+  | withdrawn
+  | reach (pid : Nat) (nh : Option Nh) (attrs : Attrs)
+  | other
+  deriving DecidableEq, Repr, Inhabited
+
+def obs2Of : List (SinkOp Unit) → Obs2
+  | [] => .nothing
+  | [.unreach _ _ _] => .withdrawn
+  | [.reach _ _ pid nh as] => .reach pid nh (sortByCode as)
+  | _ => .other
+
+def obs1Of : List (SinkOp Unit) → Obs
+  | [] => .suppressed
+  | [.reach _ _ pid nh as] => .reach pid nh (sortByCode as)
+  | _ => .other
+
+def stalePath (p : Path) : Path := { p with src := { p.src with llgr := true } }
+
+/-- `exp2`: the path is offered to a session with an empty export map; then its source is marked
+    LLGR-stale and the change `Table::restale_llgr` emits for the destination (best path reported as
+    changed, the path reported as replaced) is processed on the resulting export map. -/
+def exportTwice (c : ExportCase) : Obs × Obs2 :=
+  let u1 : Change Unit := ⟨(), 1, true, true, none, [c.path]⟩
+  let r1 := processNlriChange c.sess.exp u1 (ExportMap.empty (c.sess.max != 1))
+  let u2 : Change Unit := ⟨(), 1, true, true, some c.path.pid, [stalePath c.path]⟩
+  let r2 := processNlriChange c.sess.exp u2 r1.1
+  (obs1Of r1.2, obs2Of r2.2)
+
 def exportOne (c : ExportCase) : Obs :=
   let u : Change Unit := ⟨(), 1, true, true, none, [c.path]⟩
   match (processNlriChange c.sess.exp u (ExportMap.empty (c.sess.max != 1))).2 with
@@ -578,5 +609,100 @@ def rxLoop (c : RxCase) : Bool :=
 def rxInstalled (c : RxCase) : Bool :=
   if isAsLoop c.attrs c.localAsn c.confedId then false
   else !rxLoop c
+
+/-! ## Wire cases: two real sessions of one router (C09 end to end)
+
+    The router's configuration (`Global`, `add_peer`) and two neighbours; the first announces one
+    prefix, the second is what the route is exported to.  The session parameters are *derived*:
+    by `accept_connection` in the code, by `WireCase.session` here. -/
+
+structure PeerCfg where
+  addr : Addr              -- the neighbour's address
+  remoteAsn : Nat
+  localAsn : Nat           -- per-peer local AS, 0 = the router's
+  rid : Nat                -- the neighbour's router id (its OPEN)
+  rs : Bool                -- `route_server_client`
+  rrc : Bool               -- `route_reflector_client`
+  cluster : Option Nat     -- `route_reflector_cluster_id`
+  deriving DecidableEq, Repr, Inhabited
+
+structure WireCase where
+  asn : Nat
+  rid : Nat
+  confed : Option (Nat × List Nat)   -- confederation id, member ASes
+  localAddr : Addr                   -- the router's end of both connections
+  src : PeerCfg
+  dst : Option PeerCfg
+  dstFirst : Bool                    -- the receiver is established before the route arrives
+  nh : Nh
+  attrs : Attrs
+  deriving DecidableEq, Repr, Inhabited
+
+/-- what the neighbours saw and what the RIB holds -/
+structure WireObs where
+  installed : Option Attrs           -- attributes of the installed path, `none` = not in the RIB
+  back : Obs                         -- what the announcing neighbour was sent for the prefix
+  sent : Obs                         -- what the receiver was sent (`suppressed` without receiver)
+  deriving DecidableEq, Repr, Inhabited
+
+namespace WireCase
+/-- `add_peer` + `PeerParams::build`: `local_asn` of the peer: the configured one, else the global
+    AS; towards a neighbour outside the confederation the confederation identifier -/
+def localAs (w : WireCase) (p : PeerCfg) : Nat :=
+  let own := if p.localAsn ≠ 0 then p.localAsn else w.asn
+  match w.confed with
+  | some (id, ms) => if !ms.contains p.remoteAsn ∧ p.remoteAsn ≠ own then id else own
+  | none => own
+
+/-- `accept_connection`: `peer_role` -/
+def role (w : WireCase) (p : PeerCfg) : Role :=
+  if p.rs then .rsClient
+  else if w.localAs p ≠ 0 ∧ p.remoteAsn = w.localAs p then (if p.rrc then .rrClient else .ibgp)
+  else if (match w.confed with | some (_, ms) => ms.contains p.remoteAsn | none => false) then .confed
+  else .ebgp
+
+/-- `accept_connection`: `cluster_id` -/
+def clusterId (w : WireCase) (p : PeerCfg) : Option Nat :=
+  match w.role p with
+  | .ibgp | .rrClient => some (p.cluster.getD w.rid)
+  | _ => none
+
+def confedId (w : WireCase) : Nat := match w.confed with | some (id, _) => id | none => 0
+
+/-- `validate_update`: from a (non-confederation) eBGP peer LOCAL_PREF, ORIGINATOR_ID and
+    CLUSTER_LIST are discarded -/
+def decoded (w : WireCase) : Attrs :=
+  -- unrecognised optional non-transitive attributes are ignored by the decoder
+  let known := w.attrs.filter (fun a => !(a.isOpaque && !a.isTransitive))
+  if w.role w.src = .ebgp then
+    known.filter (fun a => !(a.code = Attr.LOCAL_PREF ∨ a.code = Attr.ORIGINATOR_ID ∨ a.code = Attr.CLUSTER_LIST))
+  else known
+
+def rxCase (w : WireCase) : RxCase :=
+  ⟨w.localAs w.src, w.confedId, w.rid, w.clusterId w.src, w.role w.src, w.decoded⟩
+
+/-- `rx_update`: LOCAL_PREF injected into what an iBGP neighbour announces without it -/
+def stored (w : WireCase) : Attrs :=
+  match w.role w.src with
+  | .ibgp | .rrClient => injectLocalPrefIfAbsent w.decoded
+  | _ => w.decoded
+
+/-- `on_established`: the `Source` of the announcing session -/
+def source (w : WireCase) : Source :=
+  ⟨.peer, w.src.addr, w.src.remoteAsn, w.localAs w.src, w.src.rid, w.role w.src, false⟩
+
+def exportCase (w : WireCase) (d : PeerCfg) : ExportCase :=
+  { sess := ⟨⟨w.role d, w.localAs d, w.localAddr, none, w.confedId⟩, d.addr, w.clusterId d, none, .ipv4, 1⟩,
+    path := { pid := 1, src := w.source, nh := some w.nh, attrs := w.stored } }
+
+def run (w : WireCase) : WireObs :=
+  if rxInstalled w.rxCase then
+    { installed := some (sortByCode w.stored),
+      back := .suppressed,
+      sent := match w.dst with
+        | some d => exportOne (w.exportCase d)
+        | none => .suppressed }
+  else { installed := none, back := .suppressed, sent := .suppressed }
+end WireCase
 
 end Rbgp.Export
